@@ -681,8 +681,8 @@ def get_state(m: Model, d: Data, state: wp.array2d[float], sig: int, active: Opt
     sig: Bitflag specifying state components.
     active: Per-world bitmask for getting state.
   """
-  if sig >= (1 << State.NSTATE):
-    raise ValueError(f"invalid state signature {sig} >= 2^mjNSTATE")
+  if sig < 0 or sig >= (1 << State.NSTATE):
+    raise ValueError(f"invalid state signature {sig}: must be in [0, 2^mjNSTATE)")
 
   @wp.kernel(module="unique", enable_backward=False, grid_stride=False)
   def _get_state(
@@ -836,8 +836,8 @@ def set_state(m: Model, d: Data, state: wp.array2d[float], sig: int, active: Opt
     sig: Bitflag specifying state components.
     active: Per-world bitmask for setting state.
   """
-  if sig >= (1 << State.NSTATE):
-    raise ValueError(f"invalid state signature {sig} >= 2^mjNSTATE")
+  if sig < 0 or sig >= (1 << State.NSTATE):
+    raise ValueError(f"invalid state signature {sig}: must be in [0, 2^mjNSTATE)")
 
   @wp.kernel(module="unique", enable_backward=False, grid_stride=False)
   def _set_state(
